@@ -85,7 +85,7 @@ pub fn gen_wild(t: &mut Tape, o: &GenOpts) -> (Item, Vec<String>) {
     let (mut item, mut labels) = gen_item(t, o);
     let k = 1 + t.weighted(&[4, 4, 3, 2, 1, 1]);
     for _ in 0..k {
-        let m = t.below(10);
+        let m = t.below(11);
         match m {
             0 | 1 | 2 => {
                 // insert a wild attribute at a random site
@@ -217,6 +217,37 @@ pub fn gen_wild(t: &mut Tape, o: &GenOpts) -> (Item, Vec<String>) {
                         item.body = Body::Struct(Shape::Tuple, vec![]);
                         labels.push("wild:empty-tuple".into());
                     }
+                }
+            }
+            9 => {
+                // give a trait instruction a body-replacing / body-extending parameter it was not generated with:
+                // validation skips rules that such a parameter makes moot, expansion must skip the same rendering
+                let mut n = 0;
+                item.for_each_attr_list(&mut |_, l| n += l.iter().flat_map(|a| a.instrs().iter()).filter(|i| matches!(i, Instr::Trait(_))).count());
+                if n > 0 {
+                    let target = t.below(n);
+                    let p = match t.below(4) {
+                        0 | 1 => TParam::Return(t.pick(&["make(@)", "{ todo!() }"]).to_string()),
+                        2 => TParam::Update("Default::default()".into()),
+                        _ => TParam::DefaultCase("todo!()".into()),
+                    };
+                    let mut idx = 0;
+                    item.for_each_attr_list_mut(&mut |_, l| {
+                        for a in l.iter_mut() {
+                            if let Some(ins) = a.instrs_mut() {
+                                for i in ins.iter_mut() {
+                                    if let Instr::Trait(tr) = i {
+                                        if idx == target {
+                                            tr.params.retain(|x| !matches!(x, TParam::Return(_) | TParam::Update(_) | TParam::DefaultCase(_)));
+                                            tr.params.push(p.clone());
+                                        }
+                                        idx += 1;
+                                    }
+                                }
+                            }
+                        }
+                    });
+                    labels.push("wild:add-tail-param".into());
                 }
             }
             _ => {
